@@ -21,6 +21,45 @@ def fns(levels, more_out=(False,), syms=("SX", "MX"), generic_calls=1, params=No
             for s in syms for c in levels for mo in more_out]
 
 
+PARAM_KINDS = ("rho_crit", "v_free", "a", "C", "tau", "eta", "kappa", "delta", "T")
+
+
+def param_sets(case, nsets):
+    """subsets of the model/link parameters to make symbolic for this case: a singleton, a pair, the full set, ...
+    (rotating with the case id so that all singletons and many pairs are exercised over a run)"""
+    h = sum(case["id"].encode()) + common.seed()
+    kinds = [k for k in PARAM_KINDS if not (k == "delta" and not case["par"]["hasDelta"])]
+    links, ramps = list(case["net"]["links"]), [o for o, k in case["net"]["origins"].items() if k["kind"] not in ("ideal", "mainstream")]
+
+    def decl(kind, per_el):
+        if kind in ("tau", "eta", "kappa", "delta", "T"):
+            return [{"kind": kind, "el": "*"}]
+        els = ramps if kind == "C" else links
+        if not els:
+            return []
+        return [{"kind": kind, "el": e} for e in els] if per_el else [{"kind": kind, "el": "*"}]
+
+    sets = []
+    k1 = kinds[h % len(kinds)]
+    sets.append(decl(k1, per_el=(h // 7) % 2 == 0))
+    k2, k3 = kinds[(h // 3) % len(kinds)], kinds[(h // 5 + 1) % len(kinds)]
+    if k2 != k3:
+        sets.append(decl(k3, True) + decl(k2, False))
+    full = []
+    for k in (kinds if h % 2 else list(reversed(kinds))):
+        full += decl(k, per_el=True)
+    sets.append(full)
+    return [s_ for s_ in sets if s_][:nsets]
+
+
+def param_fns(case, levels, more_out, nsets):
+    out = []
+    for i, ps in enumerate(param_sets(case, nsets)):
+        sym = "SX" if (i + sum(case["id"].encode())) % 2 == 0 else "MX"
+        out += fns(levels, more_out=more_out, syms=(sym,), generic_calls=2, params=ps)
+    return out
+
+
 STATE = ("rho", "v", "w")
 ALWAYS = ("np.ok", "fn.ok", "step.ok", "jac.ok", "valid", "elements")
 
@@ -66,11 +105,96 @@ def rel_C10(f):
 
 
 def rel_C11(f):
-    return f[0] in ("np.y", "fn.out") or f[0] in ALWAYS
+    return f[0] in ("np.y", "np.meta", "fn.out") or f[0] in ALWAYS
+
+
+def rel_C16(f):
+    t = tag_of(f)
+    if f[0] in ("fn.out", "fn.name_in", "fn.size_in", "fn.name_out", "fn.size_out", "fn.free", "fn.vs_plain"):
+        return t is not None and t[3] > 0
+    return f[0] in ALWAYS
 
 
 def rel_C17(f):
-    return f[0] == "fn.bounds" or f[0] in ALWAYS
+    return f[0] in ("fn.bounds", "np.bounds") or f[0] in ALWAYS
+
+
+def derive_perm(case, rng):
+    """same network, different construction history (order, bulk calls, paths, pre-added nodes) and different names"""
+    net = case["net"]
+    steps = [["link", k["up"], l, k["down"]] for l, k in net["links"].items()]
+    rng.shuffle(steps)
+    script = []
+    nodes = sorted({k["up"] for k in net["links"].values()} | {k["down"] for k in net["links"].values()})
+    if rng.random() < 0.5:
+        rng.shuffle(nodes)
+        script.append(["nodes", nodes[: rng.randint(1, len(nodes))]])
+    i = 0
+    while i < len(steps):
+        r = rng.random()
+        if r < 0.3 and i + 1 < len(steps):
+            n = rng.randint(2, len(steps) - i)
+            script.append(["links", [st[1:] for st in steps[i:i + n]]])
+            i += n
+        elif r < 0.6:
+            # grow a path from this link as far as the remaining links chain
+            path, used = [steps[i][1], steps[i][2], steps[i][3]], [i]
+            for j in range(i + 1, len(steps)):
+                if steps[j][1] == path[-1] and rng.random() < 0.8:
+                    path += [steps[j][2], steps[j][3]]
+                    used.append(j)
+            rest = [st for j, st in enumerate(steps) if j > i and j not in used]
+            steps = steps[: i + 1] + rest
+            script.append(["path", path, "", ""])
+            i += 1
+        else:
+            script.append(steps[i])
+            i += 1
+    od = [["origin", o, k["node"]] for o, k in net["origins"].items()] + [["dest", d, k["node"]] for d, k in net["dests"].items()]
+    rng.shuffle(od)
+    # origins/destinations may come before the links: the node is then created by add_origin/add_destination
+    cut = rng.randint(0, len(od))
+    script = od[:cut] + script + od[cut:]
+    ids = list(net["links"]) + list(net["origins"]) + list(net["dests"]) + nodes
+    alphabet = "abcdefghijklmnopqrstuvwxyzABCDEFGHJKLMNPQRSTUVWXYZ0123456789"
+    names, used = {}, set()
+    for i_ in ids:
+        while True:
+            nm = "".join(rng.choice(alphabet) for _ in range(rng.randint(3, 8)))
+            if nm not in used and not any(nm.endswith(u_) or u_.endswith(nm) for u_ in used):
+                break
+        used.add(nm)
+        names[i_] = nm
+    return dict(case, id=case["id"] + "-perm", build=script, names=names, rel={"kind": "perm"})
+
+
+def derive_dupnames(case, rng):
+    """every element of a kind carries the same name: names are labels, not identifiers (NumPy observation only)"""
+    net = case["net"]
+    nodes = sorted({k["up"] for k in net["links"].values()} | {k["down"] for k in net["links"].values()})
+    names = {**{l: "link" for l in net["links"]}, **{o: "origin" for o in net["origins"]},
+             **{d: "destination" for d in net["dests"]}, **{n: "node" for n in nodes}}
+    return dict(case, names=names, rel={"kind": "perm"}, want={"np": True, "fn": []}, keep_want=True)
+
+
+def derive_scale(case, rng):
+    """turn rates of all links leaving a node multiplied by a common positive factor"""
+    from fractions import Fraction
+    net = json.loads(json.dumps(case["net"]))
+    base = {l: k["beta"] for l, k in net["links"].items()}
+    fac = {}
+    for l, k in net["links"].items():
+        f = fac.setdefault(k["up"], rng.choice([Fraction(2), Fraction(3), Fraction(1, 7), Fraction(37, 100), Fraction(1)]))
+        k["beta"] = common.fr(Fraction(k["beta"]) * f)
+    return dict(case, id=case["id"] + "-scale", net=net, rel={"kind": "scale", "base_beta": base})
+
+
+def rel_C14(f):
+    return f[0] in ("np.y", "fn.out", "fn.name_in", "fn.name_out") or f[0] in ALWAYS
+
+
+def rel_C18(f):
+    return f[0] in ("twin.y", "twin.ok", "np.y", "fn.out") or f[0] in ALWAYS
 
 
 # per property: which cases, what to observe, which clauses decide
@@ -84,7 +208,10 @@ PLANS = {
     "C03": dict(rel=rel_C03, want={"np": True, "fn": fns((0, 1, 2))},
                 quick=dict(n=3, m=3, variants=1, generic=1, corners=12, rand=40),
                 thorough=dict(n=4, m=5, variants=2, generic=2, corners=12, rand=1000)),
-    "C05": dict(rel=rel_C05, want={"np": False, "fn": fns((0, 1, 2), more_out=(True,))},
+    "C05": dict(rel=rel_C05, want=lambda c: {"np": False, "fn": fns((0, 1, 2), more_out=(True,))
+                                             + fns((0,), more_out=(True,), syms=("SX",), generic_calls=2,
+                                                   params=[{"kind": "T", "el": "*"}, {"kind": "C", "el": "*"},
+                                                           {"kind": "rho_crit", "el": "*"}])},
                 quick=dict(n=3, m=3, variants=1, generic=1, corners=12, rand=40),
                 thorough=dict(n=4, m=5, variants=2, generic=2, corners=12, rand=1000)),
     "C07": dict(rel=rel_C07, want={"np": True, "np_own": True, "fn": fns((-1, 0, 1, 2, 3)) + fns((2,), more_out=(True,))},
@@ -93,7 +220,23 @@ PLANS = {
     "C10": dict(rel=rel_C10, want={"np": True, "sens": True, "jac": ["SX", "MX"]},
                 quick=dict(n=3, m=3, variants=2, generic=1, corners=0, rand=40),
                 thorough=dict(n=4, m=5, variants=4, generic=1, corners=2, rand=600)),
-    "C17": dict(rel=rel_C17, want={"np": False, "fn": fns((0,), more_out=(True,))},
+    "C04": dict(rel=rel_C04, want=lambda c: {"np": False, "fn": fns((-1, 0, 1, 2, 3), more_out=(False, True), generic_calls=2)
+                                             + param_fns(c, levels=(0, 1, 2), more_out=(True,), nsets=1)},
+                quick=dict(n=3, m=3, variants=1, generic=1, corners=0, rand=30),
+                thorough=dict(n=4, m=5, variants=2, generic=1, corners=1, rand=400)),
+    "C11": dict(rel=rel_C11, family="opts", want={"np": True, "np_plain": True, "fn": fns((0,)) + fns((2,), syms=("SX",))},
+                quick=dict(n=3, m=3, variants=1, generic=4, corners=4, rand=0),
+                thorough=dict(n=4, m=4, variants=2, generic=8, corners=12, rand=0)),
+    "C14": dict(rel=rel_C14, derive=("perm", "scale", "dupnames"), want={"np": True, "fn": fns((0,)) + fns((1,), syms=("SX",))},
+                quick=dict(n=3, m=3, variants=1, generic=1, corners=1, rand=30),
+                thorough=dict(n=4, m=5, variants=2, generic=1, corners=2, rand=400, nderive=3)),
+    "C18": dict(rel=rel_C18, family="neutral", want={"np": True, "twin": True, "fn": fns((0,))},
+                quick=dict(n=3, m=3, variants=3, generic=1, corners=2, rand=0),
+                thorough=dict(n=4, m=5, variants=5, generic=2, corners=4, rand=0)),
+    "C16": dict(rel=rel_C16, want=lambda c: {"np": False, "fn": param_fns(c, levels=(0, 2), more_out=(False, True), nsets=3)},
+                quick=dict(n=3, m=3, variants=1, generic=1, corners=1, rand=30),
+                thorough=dict(n=4, m=5, variants=1, generic=1, corners=3, rand=300)),
+    "C17": dict(rel=rel_C17, want={"np": True, "fn": fns((0,), more_out=(True,))},
                 quick=dict(n=3, m=3, variants=2, generic=1, corners=12, rand=60),
                 thorough=dict(n=4, m=5, variants=3, generic=2, corners=12, rand=1500)),
 }
@@ -122,11 +265,25 @@ def run(pid: str, tier: str, plan=None, extra_cases=None) -> dict:
     seed = common.seed()
     cases, info = dyncases.cases(b["n"], b["m"], seed, b["variants"], b["generic"], b["corners"],
                                  family=plan.get("family", "base"))
-    cases = [dict(c, want=plan["want"]) for c in cases]
+    wantf = plan["want"] if callable(plan["want"]) else (lambda c: plan["want"])
+    cases = [dict(c, want=wantf(c)) for c in cases]
     rng = random.Random(seed * 7919 + 13)
-    rnd = [randcases.rand_case(rng, f"rand-{seed}-{i}", plan["want"], nmax=5 if tier == "quick" else 6,
+    rnd = [randcases.rand_case(rng, f"rand-{seed}-{i}", None, nmax=5 if tier == "quick" else 6,
                                mmax=6 if tier == "quick" else 8) for i in range(b.get("rand", 0))]
-    allc = cases + rnd + list(extra_cases or [])
+    rnd = [dict(c, want=wantf(c)) for c in rnd]
+    base = cases + rnd
+    if plan.get("derive"):
+        derived = []
+        for c in base:
+            for k in range(b.get("nderive", 1)):
+                if "perm" in plan["derive"]:
+                    derived.append(dict(derive_perm(c, rng), id=f"{c['id']}-perm{k}"))
+                if "scale" in plan["derive"]:
+                    derived.append(dict(derive_scale(c, rng), id=f"{c['id']}-scale{k}"))
+                if "dupnames" in plan["derive"] and k == 0:
+                    derived.append(dict(derive_dupnames(c, rng), id=f"{c['id']}-dup"))
+        base = base + derived
+    allc = base + list(extra_cases or [])
     recs = dynpipe.execute(allc)
     verdicts = dynpipe.validate(recs, tag=pid)
     return assess(pid, plan, recs, verdicts, info, len(rnd))
